@@ -55,10 +55,10 @@ func (f *DefaultFanController) VerifSetLastSetPwm(v int, ok bool) {
 		f.lastSetPwm = nil
 	}
 }
-func (f *DefaultFanController) VerifMinPwmOffset() int        { return f.minPwmOffset }
-func (f *DefaultFanController) VerifPwmMap() map[int]int      { return f.pwmMap }
-func (f *DefaultFanController) VerifSetPwmMap(m map[int]int)  { f.pwmMap = m }
-func (f *DefaultFanController) VerifDistinct() []int          { return f.pwmValuesWithDistinctTarget }
+func (f *DefaultFanController) VerifMinPwmOffset() int       { return f.minPwmOffset }
+func (f *DefaultFanController) VerifPwmMap() map[int]int     { return f.pwmMap }
+func (f *DefaultFanController) VerifSetPwmMap(m map[int]int) { f.pwmMap = m }
+func (f *DefaultFanController) VerifDistinct() []int         { return f.pwmValuesWithDistinctTarget }
 func (f *DefaultFanController) VerifSetOriginal(mode, pwm int) {
 	f.originalPwmEnabled = fans.ControlMode(mode)
 	f.originalPwmValue = pwm
